@@ -2,7 +2,7 @@
      configure/configure.go   (AddLoaders, SetLoaders, Initialize, loadConfigure)
      app/options.go           (SetConfig, SetConfigLoader, AddConfigLoader)
      configure/binder/viper.go (SetConfig = viper.MergeConfig, Get = viper.Get)
-     configure/loader/{raw,file,args}.go
+     configure/loader/{raw,file,args}.go   (args.go from the argument STRINGS: [parse_arg], [argv_load])
    and of the two third-party behaviours the property rests on:
      spf13/viper v1.19.0  mergeMaps / searchMap        (modelled as it REALLY behaves)
      go-kid/properties v0.0.6  buildMap (index-free keys, mode 0)
@@ -17,6 +17,7 @@
    Definitions only; proofs live in Proofs/ConfigMergeProofs.v. *)
 From Coq Require Export List String ZArith Bool.
 From IocVerif Require Export Model.Sorter.
+From IocVerif Require Import Model.Strconv.   (* strconv2.ParseAny, for the values of command-line arguments *)
 Export ListNotations.
 Local Open Scope string_scope.
 Local Open Scope list_scope.
@@ -182,15 +183,17 @@ Fixpoint pset (p : path) (v : ctree) (m : doc) : option doc :=   (* None = panic
       end
   end.
 
-Definition arg := (path * atom)%type.
+(* one recognised argument after typing: key path and value (strconv2.ParseAny decides the type: a text, a number,
+   a bool, or - for [..] / {..} / map[..] texts - a list / a map) *)
+Definition arg := (path * ctree)%type.
 
 Fixpoint args_fold (args : list arg) (m : doc) : option doc :=
   match args with
   | [] => Some m
-  | (p, a) :: r => match pset p (CLeaf a) m with Some m' => args_fold r m' | None => None end
+  | (p, v) :: r => match pset p v m with Some m' => args_fold r m' | None => None end
   end.
 
-(* ArgsLoader.LoadConfig: no recognised argument -> nil bytes *)
+(* ArgsLoader.LoadConfig on typed arguments: no recognised argument -> nil bytes *)
 Definition args_load (args : list arg) : lres :=
   match args_fold args [] with
   | None => LoadPanic
@@ -198,10 +201,97 @@ Definition args_load (args : list arg) : lres :=
   | Some m => LoadOk (Some m)
   end.
 
+(* --- ArgsLoader.LoadConfig from the argument strings -------------------------------------------
+     for _, arg := range args {
+         if !strings.HasPrefix(arg, "--app.config") { continue }
+         cfg := strings.TrimPrefix(arg, "--app.config=")
+         propPair := strings.SplitN(cfg, "=", 2)             // the value is everything after the FIRST '='
+         val := ""; if len(propPair) == 2 { val = propPair[1] }
+         typeVal, err := strconv2.ParseAny(val); if err != nil { return nil, err }
+         p.Set(propPair[0], typeVal)                          // go-kid/properties: key split at '.', [pset]
+     }
+     yaml.Marshal(p)
+   The document then reaches viper through YAML: a float64 with an integral value below 1e15 is read back as an
+   integer, any other float64 as the float64 it is (leaf text = strconv.FormatFloat(f, 'g', -1, 64)), a string as
+   the same string, lists and maps element-wise (the harness renders observed values the same way). *)
+
+Definition bytes_of_string (s : string) : bytes := map Ascii.N_of_ascii (list_ascii_of_string s).
+Definition string_of_bytes (b : bytes) : string := string_of_list_ascii (map Ascii.ascii_of_N b).
+
+Definition lit_flag : bytes := bytes_of_string "--app.config".
+Definition lit_flag_eq : bytes := bytes_of_string "--app.config=".
+Definition b_eq : N := 61.
+
+(* strings.TrimPrefix *)
+Definition trim_prefix (p s : bytes) : bytes := if has_prefix p s then skipn (length p) s else s.
+
+(* strings.Split(s, string(c)): never empty *)
+Fixpoint split_all (c : N) (s : bytes) : list bytes :=
+  match s with
+  | [] => [[]]
+  | d :: r => if N.eqb c d then [] :: split_all c r
+              else match split_all c r with
+                   | [] => [[d]]
+                   | h :: t => (d :: h) :: t
+                   end
+  end.
+
+Definition key_path (k : bytes) : path := map string_of_bytes (split_all b_dot k).
+
+(* a parsed value as the configuration tree it becomes *)
+Definition tree_of_dec (m e : Z) : ctree :=
+  if (0 <=? e)%Z && (Z.abs (m * 10 ^ e) <? 10 ^ 15)%Z then CLeaf (AInt (m * 10 ^ e))
+  else CLeaf (AFloat (string_of_bytes (fmt_float_v m e))).
+
+Fixpoint tree_of_cval (v : cval) : ctree :=
+  match v with
+  | VNull => CLeaf ANull
+  | VBool b => CLeaf (ABool b)
+  | VInt z => CLeaf (AInt z)
+  | VDec m e => tree_of_dec m e
+  | VStr s => CLeaf (AStr (string_of_bytes s))
+  | VList l => CList (map tree_of_cval l)
+  | VMap kvs => CMap (map (fun kv => (string_of_bytes (fst kv), tree_of_cval (snd kv))) kvs)
+  end.
+
+(* one argument string: None = not an --app.config argument (skipped) *)
+Definition parse_arg (a : bytes) : option (res arg) :=
+  if has_prefix lit_flag a then
+    let (k, ov) := split_first b_eq (trim_prefix lit_flag_eq a) in
+    let val := match ov with Some v => v | None => [] end in
+    Some (rbind (parse_any val) (fun tv => Ok (key_path k, tree_of_cval tv)))
+  else None.
+
+(* the typed arguments of an argument vector, in order; the first ParseAny error / panic ends the loop *)
+Fixpoint argv_typed (argv : list bytes) : res (list arg) :=
+  match argv with
+  | [] => Ok []
+  | a :: r => match parse_arg a with
+              | None => argv_typed r
+              | Some pa => rbind pa (fun x => rbind (argv_typed r) (fun xs => Ok (x :: xs)))
+              end
+  end.
+
+(* the loop interleaves typing and Set: a key clash (panic in go-kid/properties) at an earlier argument wins over a
+   ParseAny failure at a later one *)
+Fixpoint argv_fold (argv : list bytes) (m : doc) : lres :=
+  match argv with
+  | [] => match m with [] => LoadOk None | _ => LoadOk (Some m) end
+  | a :: r => match parse_arg a with
+              | None => argv_fold r m
+              | Some Err => LoadErr
+              | Some Panic => LoadPanic
+              | Some (Ok (p, v)) => match pset p v m with Some m' => argv_fold r m' | None => LoadPanic end
+              end
+  end.
+
+Definition argv_load (argv : list bytes) : lres := argv_fold argv [].
+
 Inductive lkind : Type :=
 | LRaw (d : option doc)                 (* RawLoader: None = zero bytes *)
 | LFile (c : option (option doc))       (* FileLoader: None = unreadable; Some None = empty file *)
-| LArgs (args : list arg)               (* ArgsLoader *)
+| LArgs (args : list arg)               (* ArgsLoader, arguments already typed *)
+| LArgv (argv : list bytes)             (* ArgsLoader on the argument strings as the process received them *)
 | LUser (c : pclass) (d : option doc).  (* a loader written by the user: its class is whatever Order()/Priority()
                                            it implements; delivers fixed bytes (None = zero bytes) *)
 
@@ -213,6 +303,7 @@ Definition load (l : loader) : lres :=
   | LFile None => LoadErr
   | LFile (Some d) => LoadOk d
   | LArgs a => args_load a
+  | LArgv a => argv_load a
   | LUser _ d => LoadOk d
   end.
 
